@@ -335,8 +335,8 @@ PROPS = {
         "assumptions": ["score function is pure", "theorem guard 2k-p <= 65535 (outside it: known finding D7)"],
     },
     "C08": {
-        "lean_modules": ["Dbg.Props.C08"],
-        "theorems": ["Msp.C08_bucket_pure", "Msp.C08_bucket_strand_symmetric", "Msp.C08_pieces_exact", "Msp.C08_pieces_cover", "Msp.extsFromSliceBounds_eq"],
+        "lean_modules": ["Dbg.Props.C08", "Dbg.Props.C08b"],
+        "theorems": ["Msp.simpleScan_eq_scan", "Msp.C08_bucket_pure", "Msp.C08_bucket_strand_symmetric", "Msp.C08_pieces_exact", "Msp.C08_pieces_cover", "Msp.extsFromSliceBounds_eq"],
         "partial": [],
         "n_quick": 4000, "n_thorough": 200000,
         "nontrivial": _c08_nontrivial, "tags": _c08_tags, "shrink": _c08_shrink,
